@@ -20,4 +20,59 @@ Definition e_replay (d : data) : data :=
       enat (match r with None => final_ok q0 n meta s | _ => 0%nat end);
       ebool (mech_replay pop (qinit q0 n n) tr) ].
 
-Definition entries : list (Z * (data -> data)) := [ (1701, e_replay) ].
+Definition d_xop (d : data) : xop :=
+  let a := dnat (dnth 1 d) in
+  match dnat (dnth 0 d) with
+  | 0%nat => DSubmit a | 1%nat => DFinish a | 2%nat => DFail a | 3%nat => DClose | 4%nat => DZombieEnd a | _ => DStart a
+  end.
+Definition e_xphase (p : xphase) : data :=
+  enat (match p with XWaiting => 0 | XHolding => 1 | XRunning => 2 | XDone => 3 | XFailed => 4 | XCancelled => 5 | XZombie => 6 | XQueued => 7 end)%nat.
+Definition e_xs (s : xs) : data :=
+  L [ elist eZ (xqueue s); elist (fun x => L [e_xphase (xph x); elist eZ (xres x)]) (xjobs s); ebool (xerr s);
+      elist (epair enat (elist eZ)) (xmeta s) ].
+
+(* 1702: [pop; W; thread backend; q0; ops; trace; meta; final deque]
+         -> [constructor accepts; model states after each op; accepted; index; clause; final clause]
+   the jobs that report no metadata are the ones the model ends with as failed / cancelled / zombie *)
+Definition e_xreplay (d : data) : data :=
+  let pop := dnat (dnth 0 d) in
+  let W := dnat (dnth 1 d) in
+  let thr := dbool (dnth 2 d) in
+  let q0 := dmap dZ (dnth 3 d) in
+  let ops := dmap d_xop (dnth 4 d) in
+  let tr := dmap d_oobs (dnth 5 d) in
+  let meta := dmap (dpair dnat (dmap dZ)) (dnth 6 d) in
+  let fq := dmap dZ (dnth 7 d) in
+  let states := xdrive_all pop W thr (xinit pop q0) ops in
+  let fin := last states (xinit pop q0) in
+  let njobs := length (xjobs fin) in
+  let nometa := filter (fun j => match xph (xget fin j) with XFailed | XCancelled | XZombie => true | _ => false end) (seq 0 njobs) in
+  let (r, s) := replay_obs pop (mkA q0 [] []) 0 tr in
+  L [ ebool (match xnew pop q0 with Some _ => true | None => false end);
+      elist e_xs states;
+      ebool (match r with None => true | _ => false end);
+      enat (match r with Some (i, _) => i | None => 0%nat end);
+      enat (match r with Some (_, c) => c | None => 0%nat end);
+      enat (match r with None => final_okx q0 njobs nometa meta fq s | _ => 0%nat end) ].
+
+(* 1703: [pop; q0; njobs; trace; final deque] -> [prediction defined; predicted final deque; every resource is back in the real deque] *)
+Definition e_mechq (d : data) : data :=
+  let pop := dnat (dnth 0 d) in
+  let q0 := dmap dZ (dnth 1 d) in
+  let n := dnat (dnth 2 d) in
+  let tr := dmap d_oobs (dnth 3 d) in
+  let fq := dmap dZ (dnth 4 d) in
+  let m := mech_state pop (qinit q0 n n) tr in
+  L [ ebool (match m with Some _ => true | None => false end);
+      elist eZ (match m with Some s => queue s | None => [] end);
+      ebool (queue_back q0 fq) ].
+
+(* 1704: [q0; deque; resources of the executing run-functions] -> [deque + resources in use = the initial collection]
+   (asked when no job is between "submitted" and "started": nothing is bound out of sight) *)
+Definition e_conserved (d : data) : data :=
+  let q0 := dmap dZ (dnth 0 d) in
+  let dq := dmap dZ (dnth 1 d) in
+  let held := dmap (dmap dZ) (dnth 2 d) in
+  L [ ebool (queue_back q0 (dq ++ concat held)) ].
+
+Definition entries : list (Z * (data -> data)) := [ (1701, e_replay); (1702, e_xreplay); (1703, e_mechq); (1704, e_conserved) ].
